@@ -95,9 +95,11 @@ static int op_reload0(void)
 {
 	return op_src0() + NSRC;
 }
+/* reload variants: the new data set of the reloading source is empty / its first universe key / all its universe keys */
+#define NRELOADV 3
 static int op_fill0(void)
 {
-	return op_reload0() + (WITH_RELOAD ? NSRC : 0);
+	return op_reload0() + (WITH_RELOAD ? NSRC * NRELOADV : 0);
 }
 static int op_unfill(void)
 {
@@ -119,7 +121,10 @@ static void op_str(int op, struct vbuf *out)
 	} else if (op < op_reload0()) {
 		vb_printf(out, "src_remove src%c", 'A' + (op - op_src0()));
 	} else if (op < op_fill0()) {
-		vb_printf(out, "reload(copy-except src%c, swap, notify-diff)", 'A' + (op - op_reload0()));
+		static const char *vn[NRELOADV] = {"the empty set", "its first universe key", "all its universe keys"};
+
+		vb_printf(out, "reload of src%c with %s (copy-except, fill, swap, notify-diff)", 'A' + (op - op_reload0()) % NSRC,
+			  vn[(op - op_reload0()) / NSRC]);
 	} else {
 		vb_printf(out, "set the number of filler keys to %d (add / remove the newest)", FILL_LEVELS[op - op_fill0()]);
 	}
@@ -189,20 +194,32 @@ static void sys_apply(void *p, int op, bool check, const struct seqx_hist *h)
 			report(h, key, "spki_table_src_remove failed without an allocation failure");
 		}
 	} else if (op < op_fill0()) {
-		/* what rtr_sync does for a reload of source src whose new data set is empty */
-		int src = op - op_reload0();
+		/* what rtr_sync does for a reload of source src: shadow table = everybody else's keys + the new data set */
+		int src = (op - op_reload0()) % NSRC, variant = (op - op_reload0()) / NSRC;
 		struct spki_table *shadow = malloc(sizeof(*shadow));
-		int rc;
+		int rc, taken = 0;
 
 		spki_table_init(shadow, NULL);
 		rc = spki_table_copy_except_socket(&s->real, shadow, &M_SOCKS[src]);
 		if (check && rc != SPKI_SUCCESS)
 			report(h, "copy_except|rc", "spki_table_copy_except_socket failed without an allocation failure");
+		k_src_remove(&s->model, src);
+		for (int i = 0; i < NRECS && variant > 0; i++) {
+			struct spki_record sr;
+
+			if (RECS[i].src != src || (variant == 1 && taken))
+				continue;
+			taken++;
+			k_to_spki(&RECS[i], &sr);
+			rc = spki_table_add_entry(shadow, &sr);
+			k_add(&s->model, &RECS[i]);
+			if (check && rc != SPKI_SUCCESS)
+				report(h, "reload|fill|rc", "adding a key of the new data set to the shadow table did not succeed");
+		}
 		spki_table_swap(&s->real, shadow);
 		spki_table_notify_diff(&s->real, shadow, &M_SOCKS[src]);
 		spki_table_free_without_notify(shadow);
 		free(shadow);
-		k_src_remove(&s->model, src);
 		if (src == 2)
 			s->fill = 0;
 	} else {
